@@ -1,5 +1,5 @@
 """C13: read-only invocations never modify the device.  Every image x every read-only invocation: bytes before == bytes after."""
-import os, json, hashlib
+import os, json, hashlib, subprocess
 from vlib.common import *
 from vlib import fsweep
 from xck.image import Image
@@ -50,10 +50,89 @@ def pipeline(job):
     if os.path.exists(out): os.unlink(out)
     return (mid, n, bad)
 
+
+# ---- part B: e2undo -n (the dry run the property names) --------------------------------------------------------------------------------------------
+import struct
+def undo_variants(ud, quick):
+    """the recorded undo file, and boundary values for every header and key field with re-sealed header / key-block checksums (so that the change is seen by
+    the code behind the checksum gate), plus the same without re-sealing for the state word"""
+    from xck.crc import crc32c as _c
+    out = [('as-recorded', ud)]
+    ubs = struct.unpack_from('<I', ud, 32)[0] or 1024
+    koff = struct.unpack_from('<Q', ud, 24)[0] * ubs
+    fields = [('hdr.num_keys', 8, 8), ('hdr.super_offset', 16, 8), ('hdr.key_offset', 24, 8), ('hdr.block_size', 32, 4), ('hdr.fs_block_size', 36, 4), ('hdr.sb_crc', 40, 4),
+              ('hdr.state', 44, 4), ('hdr.fs_offset', 64, 8)]
+    nk = min(2 if quick else 4, struct.unpack_from('<Q', ud, 8)[0])
+    for k in range(nk):
+        fields += [('key%d.fsblk' % k, koff + 16 + 16 * k, 8), ('key%d.blk_crc' % k, koff + 16 + 16 * k + 8, 4), ('key%d.size' % k, koff + 16 + 16 * k + 12, 4)]
+    for name, o, z in fields:
+        if o + z > len(ud): continue
+        old = int.from_bytes(ud[o:o + z], 'little'); top = (1 << (8 * z)) - 1
+        vals = [0, 1, top, (old + 1) & top, (old - 1) & top, old ^ 1, old ^ 2] + ([] if quick else [top - 1022, 1 << (8 * z - 1), 513 * ubs, ubs - 1])
+        for v in sorted(set(vals) - {old}):
+            b = bytearray(ud); b[o:o + z] = v.to_bytes(z, 'little')
+            if o >= koff and koff + ubs <= len(b):
+                b[koff + 4:koff + 8] = b'\0\0\0\0'
+                struct.pack_into('<I', b, koff + 4, _c(0xffffffff, bytes(b[koff:koff + ubs])))
+            struct.pack_into('<I', b, 508, _c(0xffffffff, bytes(b[:508])))
+            out.append(('%s=0x%x+seal' % (name, v), bytes(b)))
+    return out
+
+UNDO_INV = [('e2undo -n', ['-n']), ('e2undo -n -f', ['-n', '-f']), ('e2undo -n -v', ['-n', '-v']), ('e2undo -h', ['-h']), ('e2undo -n -z', ['-n', '-z', 'U2'])]
+def undo_job(j):
+    cid, target, ud = j
+    p = fsweep.worker_path('c13u'); u = p + '.undo'; u2 = p + '.undo2'
+    bad = []; n = 0
+    for label, opts in UNDO_INV:
+        with open(p, 'wb') as f: f.write(target)
+        with open(u, 'wb') as f: f.write(ud)
+        if os.path.exists(u2): os.unlink(u2)
+        rc, txt = run([TOOLS_['e2undo']] + [u2 if o == 'U2' else o for o in opts] + [u, p], timeout=20); n += 1
+        with open(p, 'rb') as f: now = f.read()
+        with open(u, 'rb') as f: unow = f.read()
+        if now != target:
+            diffs = [i for i in range(0, min(len(now), len(target)), 512) if now[i:i + 512] != target[i:i + 512]][:6]
+            bad.append((label, rc, 'the filesystem image changed (size %+d, first changed sectors at %s)' % (len(now) - len(target), diffs)))
+        if unow != ud:
+            bad.append((label, rc, 'the undo file itself changed'))
+    for f in (p, u, u2):
+        if os.path.exists(f): os.unlink(f)
+    return (cid, n, bad)
+
+def undo_cases(quick):
+    """(case id, target image bytes, undo file bytes): writers x {finished, unfinished} x undo-file variants x {image as left by the writer, image from before the write}"""
+    sc = scratch(); cases = []
+    writers = [('tune2fs', lambda p, u: [TOOLS_['tune2fs'], '-z', u, '-O', 'dir_index', '-L', 'x', p]),
+               ('debugfs', lambda p, u: [TOOLS_['debugfs'], '-w', '-z', u, '-R', 'set_super_value mnt_count 7', p]),
+               ('e2fsck', lambda p, u: [TOOLS_['e2fsck'], '-fy', '-z', u, p])]
+    bases = ['ext2', 'ext4csum'] if quick else ['ext2', 'ext4csum', 'bigalloc', 'bs4k', 'quota', 'inline']
+    for base in bases:
+        for wname, mk in writers:
+            if quick and base != 'ext2' and wname != 'debugfs': continue
+            for unfinished in (False, True):
+                p = os.path.join(sc, 'c13u.img'); u = p + '.undo'
+                before = fsweep.base_data(base)
+                if wname == 'e2fsck':       # give e2fsck something to repair: a wrong free-blocks count in the first group descriptor
+                    b = bytearray(before); img = Image(before); gb, go = img.gd_location(0); o = gb * img.bs + go + 12; b[o] ^= 1; before = bytes(b)
+                open(p, 'wb').write(before)
+                if os.path.exists(u): os.unlink(u)
+                env = dict(os.environ); env.update(tool_env())
+                if unfinished: env['UNDO_IO_SIMULATE_UNFINISHED'] = '1'
+                subprocess.run(mk(p, u), env=env, stdout=subprocess.DEVNULL, stderr=subprocess.DEVNULL, timeout=120)
+                if not os.path.exists(u): continue
+                after = open(p, 'rb').read(); ud = open(u, 'rb').read()
+                os.unlink(u)
+                tag = '%s/%s/%s' % (base, wname, 'unfinished' if unfinished else 'finished')
+                for vname, vd in undo_variants(ud, quick):
+                    cases.append(('undo/%s/%s/after' % (tag, vname), after, vd))
+                    if vname == 'as-recorded' or not quick:
+                        cases.append(('undo/%s/%s/before' % (tag, vname), before, vd))
+    return cases
+
 def main(tier, only=None):
     global TOOLS_, SCRIPT_
     ck = Check('C13', tier, 'fault_enumeration')
-    TOOLS_ = {k: tool(k) for k in ('e2fsck', 'debugfs', 'dumpe2fs', 'tune2fs', 'resize2fs', 'e2image', 'e2freefrag', 'mke2fs')}
+    TOOLS_ = {k: tool(k) for k in ('e2fsck', 'debugfs', 'dumpe2fs', 'tune2fs', 'resize2fs', 'e2image', 'e2freefrag', 'mke2fs', 'e2undo')}
     fsweep.init_scratch()
     SCRIPT_ = os.path.join(scratch(), 'ro.dbg'); open(SCRIPT_, 'w').write(DBG_SCRIPT)
     quick = tier == 'quick'
@@ -71,10 +150,24 @@ def main(tier, only=None):
         runs += n
         for label, rc, dlen, diffs in bad:
             ck.violation('%s :: %s' % (mid, label), {'base': job[1], 'parts': job[2], 'invocation': label, 'exit': rc, 'size_change': dlen, 'first_changed_sector_offsets': diffs})
+    # part B: e2undo -n
+    ucases = [] if only else undo_cases(quick)
+    globals()['UCASES'] = ucases
+    ures = pmap(undo_job, ucases, chunksize=4)
+    uruns = 0
+    for (cid, n, bad) in ures:
+        uruns += n
+        for label, rc, what in bad:
+            ck.violation('%s :: %s' % (cid, label), {'part': 'undo', 'case': cid, 'invocation': label, 'exit': rc, 'what': what})
+    runs += uruns
+    ck.part('e2undo_dry_run', cases=len(ucases), runs=uruns)
+    jobs = jobs + [(c[0],) for c in ucases]
     ck.add(evaluations=runs, distinct_nontrivial=len(jobs), states=len(jobs), transitions=runs, traces_validated_against_impl=runs,
            rule='image = every corpus image (incl. one with an unrecovered 3-transaction journal) plus every single-field catalogue mutant (quick: fields of the superblock, '
                 'descriptors, journal superblock, MMP block and reserved inodes; thorough: all); each image x 11-17 read-only invocations of e2fsck/debugfs/dumpe2fs/tune2fs/'
-                'resize2fs/e2image/e2freefrag/mke2fs -n/e2label; oracle: the image file is byte-identical afterwards; distinct = distinct images',
+                'resize2fs/e2image/e2freefrag/mke2fs -n/e2label; oracle: the image file is byte-identical afterwards; distinct = distinct images.  e2undo: undo files recorded by tune2fs / debugfs / e2fsck -z, '
+                'finished and unfinished (UNDO_IO_SIMULATE_UNFINISHED), as recorded and with every header / key field set to boundary values under re-sealed checksums, against the image as the writer '
+                'left it and as it was before; invocations e2undo -n, -n -f, -n -v, -h, -n -z; oracle: image and undo file byte-identical afterwards',
            samples=[jobs[0][0], jobs[len(jobs) // 2][0], jobs[-1][0], 'invocations: ' + ', '.join(l for l, a in invocations('IMG', 1024, 257, 'OUT'))])
     ck.assumptions += ['writes are detected through the file\'s mtime/size after every invocation (any successful write counts, even of identical bytes) plus a full byte comparison per image']
     return ck.finish()
@@ -82,9 +175,14 @@ def main(tier, only=None):
 def replay(path):
     global TOOLS_, SCRIPT_
     d = json.load(open(path)); det = d['detail']
-    TOOLS_ = {k: tool(k) for k in ('e2fsck', 'debugfs', 'dumpe2fs', 'tune2fs', 'resize2fs', 'e2image', 'e2freefrag', 'mke2fs')}
+    TOOLS_ = {k: tool(k) for k in ('e2fsck', 'debugfs', 'dumpe2fs', 'tune2fs', 'resize2fs', 'e2image', 'e2freefrag', 'mke2fs', 'e2undo')}
     fsweep.init_scratch()
     SCRIPT_ = os.path.join(scratch(), 'ro.dbg'); open(SCRIPT_, 'w').write(DBG_SCRIPT)
+    if det.get('part') == 'undo':
+        quick_first = [c for q in (True, False) for c in undo_cases(q) if c[0] == det['case']][:1]
+        if not quick_first: print('case not found'); return 2
+        r = undo_job(quick_first[0]); print(r); print('replay verdict:', 'VIOLATION reproduced' if r[2] else 'no violation')
+        return 1 if r[2] else 0
     r = pipeline((d['case'], det['base'], [tuple(x) for x in det['parts']], True))
     print(r); print('replay verdict:', 'VIOLATION reproduced' if r[2] else 'no violation')
     return 1 if r[2] else 0
